@@ -77,11 +77,23 @@ func (s *recSource) SessionForwardAuth(w http.ResponseWriter, r *http.Request) {
 }
 func (s *recSource) Wildcard(w http.ResponseWriter, r *http.Request) { s.mark(13, w) }
 
+// rtIng is one configured ingress: scheme://host as written, and the path as written (before any escaping).
+type rtIng struct{ origin, path string }
+
 type rtConfig struct {
 	mode     int // 0 standalone, 1 sso server, 2 sso proxy
 	idporten bool
-	prefixes []string
-	otel     bool // OpenTelemetry middlewares enabled (routing must be unaffected)
+	prefixes []string // shorthand: ingresses http://wonderwall<prefix>
+	ings     []rtIng  // further ingresses, in configuration order after the shorthand ones
+	otel     bool     // OpenTelemetry middlewares enabled (routing must be unaffected)
+}
+
+func (c rtConfig) ingresses() []rtIng {
+	var out []rtIng
+	for _, p := range c.prefixes {
+		out = append(out, rtIng{"http://wonderwall", p})
+	}
+	return append(out, c.ings...)
 }
 
 type rtInstance struct {
@@ -89,15 +101,25 @@ type rtInstance struct {
 	src     *recSource
 	rt      chi.Router
 	pfx     []string // as the implementation reports them (Ingresses.Paths()), sorted
-	ptok    string
+	cfgPfx  []string // the distinct path prefixes of the CONFIGURED ingresses (trailing slashes dropped), sorted: where requests are aimed
+	itok    string   // the configured ingresses for the model: hex(origin)/hex(path) joined by ','
 	nTarget int
 }
 
 func newRtInstance(c rtConfig) (*rtInstance, error) {
 	cfg := &config.Config{}
-	for _, p := range c.prefixes {
-		cfg.Ingresses = append(cfg.Ingresses, "http://wonderwall"+(&url.URL{Path: p}).EscapedPath())
+	var itoks []string
+	seenPfx := map[string]bool{}
+	var cfgPfx []string
+	for _, ig := range c.ingresses() {
+		cfg.Ingresses = append(cfg.Ingresses, ig.origin+(&url.URL{Path: ig.path}).EscapedPath())
+		itoks = append(itoks, hx(ig.origin)+"/"+hx(ig.path))
+		if q := strings.TrimRight(ig.path, "/"); !seenPfx[q] {
+			seenPfx[q] = true
+			cfgPfx = append(cfgPfx, q)
+		}
 	}
+	sort.Strings(cfgPfx)
 	cfg.OpenID.Provider = "test"
 	if c.idporten {
 		cfg.OpenID.Provider = config.ProviderIDPorten
@@ -122,7 +144,8 @@ func newRtInstance(c rtConfig) (*rtInstance, error) {
 	in := &rtInstance{c: c, src: src, rt: router.New(src, cfg)}
 	in.pfx = append([]string{}, ing.Paths()...)
 	sort.Strings(in.pfx)
-	in.ptok = listTok(in.pfx)
+	in.cfgPfx = cfgPfx
+	in.itok = strings.Join(itoks, ",")
 	return in, nil
 }
 
@@ -218,14 +241,14 @@ func (in *rtInstance) serve(q *rtRequest, win, wimpl *bufio.Writer) bool {
 	if in.c.idporten {
 		idp = 1
 	}
-	fmt.Fprintf(win, "rtroute %d %d %s %s %s %s %s %s %s %s\n", in.c.mode, idp, in.ptok, hx(q.method), hx(q.raw), hx(q.path),
+	fmt.Fprintf(win, "rtroute %d %d %s %s %s %s %s %s %s %s\n", in.c.mode, idp, in.itok, hx(q.method), hx(q.raw), hx(q.path),
 		hx(q.mode), hx(q.dest), listTok(q.accepts), hx(q.acrm))
 	fmt.Fprintf(wimpl, "%d %d %d %d\n", hit, status, b2i(nc), b2i(ownedPath(in.pfx, q.path)))
 	// the same request with Path / RawPath derived by the model from the target (origin-form, no query)
 	if t := q.target; t != "" && strings.HasPrefix(t, "/") && !strings.HasPrefix(t, "//") && !strings.Contains(t, "?") {
 		in.nTarget++
 		if in.nTarget%4 == 0 {
-			fmt.Fprintf(win, "rtarget %d %d %s %s %s %s %s %s %s\n", in.c.mode, idp, in.ptok, hx(q.method), hx(t),
+			fmt.Fprintf(win, "rtarget %d %d %s %s %s %s %s %s %s\n", in.c.mode, idp, in.itok, hx(q.method), hx(t),
 				hx(q.mode), hx(q.dest), listTok(q.accepts), hx(q.acrm))
 			fmt.Fprintf(wimpl, "%d %d %d %d\n", hit, status, b2i(nc), b2i(ownedPath(in.pfx, q.path)))
 		}
@@ -254,7 +277,7 @@ func (in *rtInstance) routeTable(win, wimpl *bufio.Writer) error {
 	if in.c.idporten {
 		idp = 1
 	}
-	fmt.Fprintf(win, "rtable %d %d %s %d\n", in.c.mode, idp, in.ptok, base)
+	fmt.Fprintf(win, "rtable %d %d %s %d\n", in.c.mode, idp, in.itok, base)
 	fmt.Fprintln(wimpl, strings.Join(rows, " "))
 	return nil
 }
@@ -319,6 +342,35 @@ func runRouter(args []string) error {
 		}
 		configs = append(configs, rtConfig{mode: rng.Intn(3), idporten: rng.Intn(5) == 0, prefixes: ps})
 	}
+	// ingress lists as an operator may write them: paths that differ only in letter case (the router, the cookie paths and
+	// MatchingPath compare paths byte for byte: these are DIFFERENT prefixes), hosts that differ only in letter case, the same
+	// ingress with and without trailing slashes, literal duplicates, one path a prefix of another, the same path on two hosts
+	W, WU, O := "http://wonderwall", "http://WonderWall", "https://other.example.com"
+	nPlain := len(configs) // the configurations from here on get a lighter method sweep (every method only at and directly below the mounts)
+	configs = append(configs,
+		rtConfig{mode: 0, ings: []rtIng{{W, "/Soknad"}, {W, "/soknad"}}},
+		rtConfig{mode: 0, ings: []rtIng{{W, "/soknad"}, {W, "/Soknad"}, {W, ""}}},
+		rtConfig{mode: 2, ings: []rtIng{{W, "/app"}, {W, "/APP"}, {W, "/App/"}}},
+		rtConfig{mode: 1, ings: []rtIng{{W, "/sso"}, {W, "/SSO"}}},
+		rtConfig{mode: 0, ings: []rtIng{{WU, "/app"}, {W, "/app"}}},
+		rtConfig{mode: 0, ings: []rtIng{{WU, "/App"}, {W, "/app"}, {W, ""}, {WU, ""}}},
+		rtConfig{mode: 0, ings: []rtIng{{W, "/app/"}, {W, "/app"}, {W, "/app//"}, {W, "/"}}},
+		rtConfig{mode: 0, ings: []rtIng{{W, "/app"}, {W, "/app"}, {W, "/app/sub"}, {W, "/app/sub"}, {W, "/app/Sub"}}},
+		rtConfig{mode: 2, ings: []rtIng{{W, "/x"}, {O, "/x"}, {O, "/X"}, {O, "/x/"}}},
+		rtConfig{mode: 0, ings: []rtIng{{W, "/a"}, {W, "/A"}, {W, "/a/b"}, {W, "/A/b"}, {W, "/a/B"}}},
+		rtConfig{mode: 0, ings: []rtIng{{W, ""}, {W, "/Oauth2"}, {W, "/oauth2"}}},
+		rtConfig{mode: 1, idporten: true, ings: []rtIng{{O, "/é"}, {O, "/É"}, {W, "/é/"}}},
+	)
+	for i := 0; i < nRandCfg/2; i++ {
+		// random lists over case variants of a few paths and hosts, duplicates allowed
+		k := 2 + rng.Intn(4)
+		var igs []rtIng
+		for len(igs) < k {
+			igs = append(igs, rtIng{[]string{W, W, WU, O}[rng.Intn(4)],
+				[]string{"", "/", "/app", "/App", "/APP", "/app/", "/app/sub", "/app/Sub", "/App/sub", "/a", "/A", "/o", "/O"}[rng.Intn(13)]})
+		}
+		configs = append(configs, rtConfig{mode: rng.Intn(3), idporten: rng.Intn(5) == 0, ings: igs})
+	}
 	var insts []*rtInstance
 	for _, c := range configs {
 		in, err := newRtInstance(c)
@@ -326,6 +378,13 @@ func runRouter(args []string) error {
 			return err
 		}
 		insts = append(insts, in)
+		// ParseIngresses: which path prefixes the implementation derives from the configured ingresses
+		fmt.Fprintf(win, "rtingress %s\n", in.itok)
+		ptoks := []string{"K"}
+		for _, p := range in.pfx {
+			ptoks = append(ptoks, hx(p))
+		}
+		fmt.Fprintln(wimpl, strings.Join(ptoks, " "))
 		if err := in.routeTable(win, wimpl); err != nil {
 			return err
 		}
@@ -370,7 +429,7 @@ func runRouter(args []string) error {
 	}
 	for ci, in := range insts {
 		bases := map[string]bool{"": true, "/other": true}
-		for _, p := range in.pfx {
+		for _, p := range in.cfgPfx {
 			bases[p] = true
 		}
 		var bl []string
@@ -386,6 +445,9 @@ func runRouter(args []string) error {
 				}
 				target := base + "/" + strings.Join(segs, "/")
 				do(in, &rtRequest{method: "GET", target: target, mode: "navigate", dest: "document"})
+				if ci >= nPlain && len(segs) == 2 && segs[0] != "oauth2" {
+					continue
+				}
 				if len(segs) <= 2 || (len(segs) == 3 && (segs[0] == "oauth2" && (segs[1] == "session" || segs[1] == "logout"))) {
 					for _, m := range rtMethods[1:] {
 						do(in, &rtRequest{method: m, target: target})
@@ -411,7 +473,7 @@ func runRouter(args []string) error {
 		{"*/*"}, {"text/htmlx"}, {"application/json", "text/html"}, {"a,b;text/html, Text/Html ;x"}, {"text/html ;q=1"}, {"teKt/html"}}
 	eps := []string{"/login", "/logout", "/callback", "/logout/callback", "/logout/local", "/logout/frontchannel", "/session", "/session/refresh", "/ping", "/x"}
 	for _, in := range insts {
-		if len(in.pfx) != 1 || in.c.idporten {
+		if len(in.cfgPfx) != 1 || len(in.c.ingresses()) != 1 || in.c.idporten {
 			continue
 		}
 		for _, ep := range eps {
@@ -426,7 +488,7 @@ func runRouter(args []string) error {
 								if acrm != "" && m != "OPTIONS" && m != "GET" {
 									continue
 								}
-								do(in, &rtRequest{method: m, target: in.pfx[0] + "/oauth2" + ep, mode: mo, dest: de, accepts: ac, acrm: acrm})
+								do(in, &rtRequest{method: m, target: in.cfgPfx[0] + "/oauth2" + ep, mode: mo, dest: de, accepts: ac, acrm: acrm})
 							}
 						}
 					}
@@ -447,7 +509,7 @@ func runRouter(args []string) error {
 			n := rng.Intn(6)
 			var b strings.Builder
 			if rng.Intn(4) != 0 {
-				b.WriteString(in.pfx[rng.Intn(len(in.pfx))])
+				b.WriteString(in.cfgPfx[rng.Intn(len(in.cfgPfx))])
 				if rng.Intn(3) != 0 {
 					b.WriteString("/oauth2")
 				}
